@@ -158,8 +158,10 @@ def numba_kernel_record(repo, fn):
             main = l
     if main is None:
         raise AnalysisError(f"{fn.qualname}: numba kernel does not iterate yield_groups_numba")
+    rets = [n for n in body_nodes(fn.node) if isinstance(n, ast.Return) and isinstance(n.value, ast.Name)]
+    acc = rets[-1].value.id if rets else "out"
     apps = [n for n in ast.walk(main) if isinstance(n, ast.Call) and isinstance(n.func, ast.Attribute) and n.func.attr == "append"
-            and norm(n.func.value) == "out"]
+            and norm(n.func.value) == acc]
     ifs = [s for s in main.body if isinstance(s, ast.If)]
     if ifs and len(apps) == 2:
         t = ifs[0].test
@@ -196,7 +198,8 @@ def group_form(repo, fn):
         if isinstance(n, ast.Assign) and norm(n.targets[0]) == "aggregate.default":
             rec["default_attr"] = norm_default(n.value)
             rec["default_node"] = n
-        if isinstance(n, ast.Assign) and isinstance(n.value, ast.Tuple) and len(n.value.elts) == 2 and norm(n.targets[0]) == "f":
+        if isinstance(n, ast.Assign) and isinstance(n.value, ast.Tuple) and len(n.value.elts) == 2 \
+                and isinstance(n.targets[0], ast.Name) and all(isinstance(e, ast.Name) for e in n.value.elts):
             rec["pairs"].append((norm(n.value.elts[0]), norm(n.value.elts[1]), n))
     rets = [n for n in body_nodes(clo.node) if isinstance(n, ast.Return)]
     if len(rets) != 1 or not isinstance(rets[0].value, ast.Call):
